@@ -17,6 +17,7 @@
 (*   NonceMoved   SubmitClaim: currentNonce > claim.Nonce -> give up        *)
 (*   Assemble /   tbtc.go AssembleInactivityClaim                           *)
 (*   AssembleFails  (convertSignaturesToChainFormat)                        *)
+(*   Superseded   SubmitClaim: context done while waiting for the block     *)
 (*   Notify       SubmitInactivityClaim -> notifyOperatorInactivity         *)
 (* Hashes and signatures are abstract as in ChainRules.                    *)
 (***************************************************************************)
@@ -229,7 +230,14 @@ Notify ==
                                 ELSE pc' = "failed" /\ outcome' = notified'.revert
     /\ UNCHANGED <<inputs, claim, own, accepted, chainClaim>>
 
-Next == NewClaim \/ SignClaim \/ Collect \/ GateReject \/ GatePass \/ NonceMoved \/ AssembleFails \/ Assemble \/ Notify
+\* the context is done while the member waits for its submission block: if ctx.Err() != nil { return nil }
+Superseded ==
+    /\ pc = "notify"
+    /\ pc' = "aborted" /\ outcome' = "superseded while waiting"
+    /\ UNCHANGED <<inputs, claim, own, accepted, chainClaim, notified>>
+
+Next == NewClaim \/ SignClaim \/ Collect \/ GateReject \/ GatePass \/ NonceMoved \/ AssembleFails \/ Assemble
+           \/ Superseded \/ Notify
 Spec == Init /\ [][Next]_vars
 Terminal == pc \in {"failed", "aborted", "done"}
 
